@@ -26,6 +26,10 @@ def run_item(it):
             # one CompilerConfigs object handed to every conversion of this process (as a batch tool would): it is an
             # input, so nothing a conversion does may change what the next one gets out of it
             opts["compiler_configs"] = shared_config()
+        elif it.get("cfg") is not None:
+            # a configuration of this item's own (a fresh object): what it says ends with this conversion
+            from coco.b09.configs import CompilerConfigs, StringConfigs
+            opts["compiler_configs"] = CompilerConfigs(string_configs=StringConfigs(strname_to_size=dict(it["cfg"])))
         r = harness.convert(it["text"], **opts)
         data = r["out"] if r["ok"] else "EXC:" + str(r.get("exc"))
         return hashlib.sha256(data.encode("utf-8", "replace")).hexdigest()
